@@ -330,6 +330,31 @@ pub fn run(tier: Tier) -> i32 {
             ctx.sample(json!({"base": chunks_str(cs), "stream": brief_bytes(&w.bytes)}));
         }
     });
+    // ---- a chunk whose payload is exactly 65536 bytes longer than its 16-bit compressed-size field says (a check that
+    // compares the consumed length in 16 bits cannot see it); no valid base has such a chunk, so it is built directly
+    {
+        let mut lits = 62_000usize;
+        let gen = |n: usize| -> Vec<Sym> { (0..n as u32).map(|i| Sym::L((i.wrapping_mul(2654435761) >> 13) as u8)).collect() };
+        let mut e = crate::refmodel::enc::encode(0, 0, 0, u64::MAX, &gen(lits));
+        while e.payload.len() < 65536 + 40 && lits < 200_000 {
+            lits += 2000;
+            e = crate::refmodel::enc::encode(0, 0, 0, u64::MAX, &gen(lits));
+        }
+        if e.payload.len() > 65536 + 4 {
+            let declared = e.payload.len() - 65536;
+            let un = e.expect.len() - 1;
+            let mut m: Vec<u8> = vec![0xE0 | ((un >> 16) & 0x1F) as u8, (un >> 8) as u8, un as u8, ((declared - 1) >> 8) as u8, (declared - 1) as u8, 0x00];
+            m.extend_from_slice(&e.payload);
+            m.push(0x00);
+            let (v, out, consumed) = dec_plain(Fmt::Lzma2, &Opts::default(), &m);
+            ctx.eval(1);
+            ctx.nontriv(1);
+            if !v.is_err() {
+                let case = Case::Dec { fmt: Fmt::Lzma2, opts: Opts::default(), input: Hex(m), rd: Rd::default(), sk: Sk::default() };
+                ctx.violation(&case, &format!("one chunk declaring {} compressed bytes whose payload needs {} (exactly 65536 more) for its {} output bytes: malformed (payload needs more input than its declared compressed size) => Err", declared, e.payload.len(), e.expect.len()), &obs_of(v, out, consumed), None);
+            }
+        }
+    }
     ctx.set_extra("submitted_by_reference_reason", json!(*kinds_hit.lock().unwrap()));
     ctx.scope_done(&format!("mutants-of-{}-bases", bs.len()), ctx.evaluations.load(Ordering::Relaxed), t0, "complete mutation domains at every chunk position");
     ctx.finish()
